@@ -457,4 +457,11 @@ def rules(model: Model, tier: str) -> List[RuleResult]:
     _hy = ac.hygiene_rules(model, fc, PROP, min_copies=2, min_opt=2)
     from ..rules import substitution as _subst
     _sub = _subst.rules(model, PROP, tier)
-    return [R1, R2, R3, R5, R6, Sy, Mr, O, G, K, D, *_hy, *_sub]
+    from ..rules import linopalg
+    from ..rules.hermitian import hermitian_idiom
+    Hh = RuleResult(PROP, "C06-H", "every last-two-axes transpose in the symeig files and in the operator base class is conjugated", min_instances=8)
+    hermitian_idiom(model, Hh, {"xitorch/_core/linop.py", "xitorch/linalg/symeig.py", "xitorch/_impls/linalg/symeig.py"},
+                    {("xitorch/_impls/linalg/symeig.py", "davidson"): "real-only path"})
+    ADJ = RuleResult(PROP, "C06-A", "operator algebra: composed operators' _rmv is the formal adjoint of _mv (the pull-backs go through A.mm / M.mm)", min_instances=4)
+    linopalg.adjoint_structure(model, ADJ)
+    return [R1, R2, R3, R5, R6, Sy, Mr, O, G, K, D, *_hy, Hh, ADJ, *_sub]
